@@ -228,7 +228,7 @@ class Generator:
             'strip_nested': spec.get('strip_nested'),
             'drop_takes_state': spec.get('drop_takes_state'),
             'footer_fields': [n for n, _, _, _ in self.footer_fields],
-            'self_cells': self.bump_cells if impl in ('bump', 'bump1', 'drop') else (['footer'] if impl == 'iter' else []),
+            'self_cells': self.bump_cells if (impl in ('bump', 'bump1', 'drop') or spec.get('kind') == 'allocglue') else (['footer'] if impl == 'iter' else []),
             'w_funcs': self.w_funcs,
             'desugar': dict(kv.split(':') for kv in spec['desugar'].split(',')) if spec.get('desugar') else {},
         }
